@@ -33,7 +33,11 @@ class KModule:
 
     def text(self):
         t = open(os.path.join(VERIF, "contracts/kani", self.contract)).read()
-        return t.replace("/*@@GENERATED:%s@@*/" % self.key, self.generated())
+        t = t.replace("/*@@GENERATED:%s@@*/" % self.key, self.generated())
+        if self.key == "index":
+            t = t.replace("/*@@GENERATED:index2@@*/", "\n".join(
+                "reader_harness!(#[kani::unwind(%d)] u9_index_pop%d, u9_index_body(%d));" % (k + 2, k, k) for k in U9_POP))
+        return t
 
     def full_name(self, h):
         modpath = self.target[len("src/"):-len(".rs")].replace("/", "::")
@@ -60,6 +64,7 @@ def _gen_index():
     return "\n".join(out)
 
 
+U9_POP = list(range(0, 65))
 M_INDEX = KModule("index", "src/index.rs", "verif_index", "index.rs", _gen_index)
 for n in ["u1_entry_codec", "u1_extract_key_slices", "u1_address_codec", "u1_table_id"]:
     M_INDEX.harnesses.append(H(n, "U1"))
@@ -84,6 +89,10 @@ M_INDEX.harnesses.append(H("u3_insert_new", "U3"))
 M_INDEX.harnesses.append(H("u3_insert_replace", "U3"))
 M_INDEX.harnesses.append(H("u3_remove", "U3"))
 M_INDEX.harnesses.append(H("canary_u3", "U3", kind="canary"))
+for k in U9_POP:
+    M_INDEX.harnesses.append(H("u9_index_pop%d" % k, "U9", tiers=("quick", "thorough") if k in (0, 1, 2, 3, 64) else ("thorough",),
+                               shape="IndexTable::validate_plan / skip_plan, mask with %d set bit(s) (positions symbolic)" % k))
+M_INDEX.harnesses.append(H("canary_u9_index", "U9", kind="canary"))
 
 
 # ---------------------------------------------------------------- table.rs
@@ -153,7 +162,7 @@ def _table_shapes():
                         tiers if (mode == 0 or (n == 2 and tiers == Q)) else T, n + 1,
                         "query/for_parts: entry_size %d %s, rc=%s key=%s, %d part(s), last part %d bytes, %s" % (
                             es, "multipart" if mp else "fixed", rc, k, n, last, ["live entry", "counter zero", "key mismatch"][mode])))
-    quick_rd = set()  # multi-part reader shapes are thorough-only (cost)
+    quick_rd = {(True, True, 2, 9), (False, False, 2, 0), (True, True, 3, 46)}
     for (rc, k) in [(True, True), (False, False), (False, True), (True, False)]:
         hdr = (4 if rc else 0) + (26 if k else 0)
         for n in (1, 2, 3):
@@ -169,7 +178,7 @@ def _table_shapes():
         nm = "u6_r_sk_%s_%s_n%d" % ("mp" if mp else "fx", "r" if rc else "n", n)
         out.append((nm, "r_size_and_key(48, %s, %s, %d, %d)" % (_b(mp), _b(rc), n, last), "U6", "bounded", Q if mp and rc else T, n + 1,
                     "size / partial_key_at / has_key_at on a %d-part chain" % n))
-    out.append(("u6_r_dead_mp", "r_dead(48, true)", "U6", "bounded", T, 3, "tombstone and continuation part are not values"))
+    out.append(("u6_r_dead_mp", "r_dead(48, true)", "U6", "bounded", Q, 3, "tombstone and continuation part are not values"))
     out.append(("u6_r_dead_fx", "r_dead(48, false)", "U6", "bounded", T, 3, "tombstone is not a value (fixed table)"))
     return out
 
@@ -178,7 +187,7 @@ TABLE_SHAPES = _table_shapes()
 
 
 def _gen_table():
-    return "\n".join("table_harness!(#[kani::unwind(%d)] %s, %s);" % (x[5], x[0], x[1]) for x in TABLE_SHAPES)
+    return M_TABLE.fixed_gen + "\n" + "\n".join("table_harness!(#[kani::unwind(%d)] %s, %s);" % (x[5], x[0], x[1]) for x in TABLE_SHAPES)
 
 
 M_TABLE = KModule("table", "src/table.rs", "verif_table", "table.rs", _gen_table,
@@ -189,7 +198,54 @@ for (nm, call, unit, kind, tiers, _unw, shape) in TABLE_SHAPES:
     M_TABLE.harnesses.append(H(nm, unit, kind=kind, tiers=tiers, shape=shape,
                                bound="48/32/33/64-byte entries (real multipart size is 4096), <= 3 parts, free list <= 2"))
 
-KMODULES = {"index": M_INDEX, "table": M_TABLE}
+M_TABLE.fixed_gen = "\n".join([
+    "table_harness!(#[kani::unwind(3)] u8_change_ref_single, u8_change_ref(false, false));",
+    "table_harness!(#[kani::unwind(3)] u8_change_ref_single_c, u8_change_ref(false, true));",
+    "table_harness!(#[kani::unwind(3)] u8_change_ref_multihead, u8_change_ref(true, false));",
+    "table_harness!(#[kani::unwind(3)] u8_change_ref_multihead_c, u8_change_ref(true, true));",
+    "table_harness!(#[kani::unwind(3)] u8_dec_ref_frees, b_u8_dec_ref_frees());",
+    "table_harness!(#[kani::unwind(3)] u14_free_list, b_u14_free_list());",
+    "table_harness!(#[kani::unwind(3)] u14_next_free_grow_and_reject, b_u14_next_free_grow_and_reject());",
+    "table_harness!(#[kani::unwind(5)] u14_remove_chain, b_u14_remove_chain());",
+])
+# (u8_* Kani harnesses exist in the contract file but exhaust CBMC's memory; U8 is carried by the Verus fragment unit)
+for n in ["u14_free_list", "u14_next_free_grow_and_reject", "u14_remove_chain"]:
+    M_TABLE.harnesses.append(H(n, "U14", kind="bounded", bound="48-byte entries, fill mark <= 7, one freed slot / 3-part chain"))
+for k in ["fixed32", "fixed4096", "fixed_max", "multipart"]:
+    M_TABLE.harnesses.append(H("u9_value_validate_" + k, "U9"))
+# (u9_value_enact_* exist in the contract file but do not finish under CBMC within budget; not registered)
+M_TABLE.harnesses.append(H("canary_u9_value", "U9", kind="canary"))
+M_LOG = KModule("log", "src/log.rs", "verif_log", "log.rs")
+M_TABLE.deps = (M_LOG,)
+
+# ---------------------------------------------------------------- column.rs
+U11_WELL = [(0, 0), (0, 3), (1, 0), (1, 3), (2, 5), (3, 1)]
+U11_ARB = [0, 1, 2, 8, 9, 10, 17, 25]
+
+
+def _gen_column():
+    out = []
+    for (n, d) in U11_WELL:
+        N = d + 8 * n + 1
+        out.append("#[kani::proof]\n#[kani::unwind(%d)]\n#[kani::stub(std::fmt::format, crate::verif_stubs::fmt_format)]\nfn u11_well_c%d_d%d() { u11_unpack_wellformed::<%d>(%d, %d); }" % (n + 2, n, d, N, n, d))
+    for N in U11_ARB:
+        out.append("#[kani::proof]\n#[kani::unwind(%d)]\n#[kani::stub(std::fmt::format, crate::verif_stubs::fmt_format)]\nfn u11_arb_len%d() { u11_unpack_arbitrary::<%d>(); }" % (N // 8 + 3, N, N))
+    return "\n".join(out)
+
+
+M_COLUMN = KModule("column", "src/column.rs", "verif_column", "column.rs", _gen_column, deps=(M_LOG, M_TABLE))
+M_COLUMN.harnesses.append(H("u7_sizes_table", "U7"))
+for n in ["u7_compress_rk", "u7_compress_nn", "u7_compress_nk"]:
+    M_COLUMN.harnesses.append(H(n, "U7", kind="bounded", bound="slice of 3 fixed tables + blob table with arbitrary entry sizes (the real vector has 255 + 1)"))
+M_COLUMN.harnesses.append(H("u11_child_count_representable", "U11"))
+for (n, d) in U11_WELL:
+    M_COLUMN.harnesses.append(H("u11_well_c%d_d%d" % (n, d), "U11", kind="bounded", tiers=("thorough",) if n == 255 else ("quick", "thorough"),
+                                shape="unpack_node_*: %d children, %d data bytes" % (n, d), bound="data length <= 5 bytes; child counts 0..=3 (larger counts exceed the CBMC budget: Vec growth)"))
+for N in U11_ARB:
+    M_COLUMN.harnesses.append(H("u11_arb_len%d" % N, "U11", kind="bounded", shape="unpack_node_* on %d arbitrary bytes" % N, bound="input length <= 25 bytes"))
+
+M_INDEX.deps = (M_LOG,)
+KMODULES = {"index": M_INDEX, "table": M_TABLE, "log": M_LOG, "column": M_COLUMN}
 
 
 def kmodule_of_unit(unit):
@@ -215,16 +271,75 @@ PROPS = {
     },
 }
 
+TB = ["rustc, Kani 0.68, CBMC 6.11, kissat/CaDiCaL, Verus 0.2026.09.13, Z3 (the verifiers themselves)"]
+
+PROPS["C09"] = {
+    "kani_units": ["U1", "U3", "U4"],
+    "verus_units": ["index_search", "lookup_chain"],
+    "level": "other",
+    "technique": "Kani/CBMC contracts on the real index codec, page update and key recovery (complete over all pages/keys/index sizes) + Verus proof of the real collision-chain lookups against callee contracts",
+    "claim": "Decided by contracts, for all inputs: (a) an entry moved to any larger index lands in the page and carries the partial key its original key would have had (key recovery lemma, all 256-bit keys, all size pairs 16..=49); (b) entry/address codec is an inverse pair; (c) page insert never overwrites a live slot, replace touches only the confirmed slot, remove only a slot whose partial key matches, address overflow forces growth, nothing else in the page changes; (d) the lookup chains (get_in_index, contains_partial_key_with_address) never stop at a candidate whose stored key/address differs, never skip an exact match, and terminate. The composition into 'any number of growths interleaved with commits, reads, restarts' is a history/schedule property and is not mechanised.",
+    "level_note": "Trusted: LogWriter::insert_index contract (recorder), IndexTable::get = page search contract lifted through the log overlay / mmap (assumed), Column::get_value contract (assumed; checked boundedly under C06). Reindex scheduling, progress bookkeeping, drop_index ordering, crash during growth are not covered.",
+    "trusted_base": TB,
+    "explanation": "U1/U3/U4: complete Kani proofs (loop bounds are program constants, inputs fully symbolic). U13: Verus, unbounded, modular (callee contracts assumed as listed). Level 'other' because the end-to-end statement over histories is not mechanised and U13 rests on assumed callee contracts.",
+    "does_not_cover": ["interleaving of reindex batches with commits and reads", "reindex.progress bookkeeping / drop_index ordering", "restart or crash during growth", "write_reindex_plan_locked retry loop and trigger_reindex (lock-guard code neither tool parses)"],
+}
+PROPS["C20"] = {
+    "kani_units": ["U1", "U4"],
+    "verus_units": [],
+    "level": "proof",
+    "technique": "Kani/CBMC loop-free contracts on the real recover_key_prefix / key splice, complete over all keys and index sizes",
+    "claim": "For every 32-byte hashed key, index size 16..=49 and valid address: the key that migration feeds to the destination (page number + partial key recovered by recover_key_prefix, spliced with the 26-byte key tail stored with the value) equals the source key bit for bit, and the entry's address is preserved. This is the data-dependent core of 'every key of the source returns the same value'.",
+    "level_note": "Covers only the key-recovery obligation. The rc-fold re-commit loop, column selection, file copying and overwrite mode are driven by closures over two open databases and are out of reach (DESIGN §4 C20).",
+    "exhaustive_tiers": ["quick", "thorough"],
+    "trusted_base": TB,
+    "explanation": "Loop-free harnesses over fully symbolic inputs: complete proofs.",
+    "does_not_cover": ["the `for _ in 0..rc` re-commit loop", "column selection, file copying, overwrite mode", "reference counts of the destination"],
+}
 PROPS["C06"] = {
-    "kani_units": ["U5", "U6"],
+    "kani_units": ["U5", "U6", "U7"],
     "verus_units": [],
     "level": "other",
-    "technique": "Kani/CBMC contracts on the real entry-header codec (complete) and on the chain writer/reader against the on-disk format specification (bounded shapes)",
-    "claim": "TBD",
-    "level_note": "TBD",
-    "trusted_base": ["rustc, Kani 0.68, CBMC 6.11, kissat/CaDiCaL"],
-    "explanation": "TBD",
-    "does_not_cover": [],
+    "technique": "Kani/CBMC contracts on the real entry-header codec and tier selection (complete) and on the chain writer/reader against the on-disk format specification (bounded shapes)",
+    "claim": "Proved for all inputs: entry-header codec round trips, size/flag words never collide with the four markers (the record classifier is a partition), value_size arithmetic, SIZES strictly increasing and tier selection minimal and total. Bounded (entry sizes 32/33/48/64, <= 3 parts): overwrite_chain in insert / replace / claimed mode emits exactly the on-disk format FMT for (key, rc=1, value, compressed) on the slots popped LIFO from the free list then taken from the fill mark, releases every surplus old part as a tombstone linked in front of the free list, and keeps filled/last_removed/dirty_header exact; query/size/partial_key_at/has_key_at map any FMT chain back to (value, flag, rc) and reject tombstones, continuation parts, zero counters and foreign keys. Read-after-write, overwrite to any other length, and release-and-reuse follow by composition through FMT (on paper).",
+    "level_note": "Chain writer/reader are BOUNDED stand-ins (real multipart part size 4096 and 255 tiers are not covered; small sizes exercise the same capacity comparisons). Trusted: LogWriter contract (ghost view: last write wins), lz4/snappy inverse, fmt::format stub (error text outside every claim).",
+    "trusted_base": TB,
+    "explanation": "U5/U7 complete proofs; U6 bounded by shape (one generated harness per concrete shape, contents symbolic), never counted as proved.",
+    "does_not_cover": ["real part size 4096 / MiB values", "lz4 / snappy themselves", "write_existing_value_plan tier-move path", "reads through the mmap'd file (only the log view is modelled)"],
+}
+PROPS["C14"] = {
+    "kani_units": ["U14", "U3", "U1"],
+    "verus_units": [],
+    "level": "other",
+    "technique": "Kani/CBMC contracts on the real free-list operations and index page update (bounded tables / complete page proofs)",
+    "claim": "One-operation preservation of the structural partition: clear_slot pushes exactly the freed slot (tombstone linked to the previous head), next_free pops exactly the head and restores the previous head or extends the fill mark by one, rejects an out-of-range link without handing anything out; removing a chain frees every part exactly once in chain order; the header record (last_removed, filled) is emitted iff either changed; an index page update touches exactly one slot.",
+    "level_note": "Bounded (48-byte entries, fill mark <= 7, <= 3-part chain) except the index page obligations (complete). The global invariant over histories, btree reachability and node reference counts are not covered.",
+    "trusted_base": TB,
+    "explanation": "Bounded stand-ins for the free list; complete proofs for the index page.",
+    "does_not_cover": ["the global invariant over histories", "btree reachability / depth", "node reference counts", "index slot removed in the same plan as its value (caller property)"],
+}
+PROPS["C13"] = {
+    "kani_units": ["U9"],
+    "verus_units": [],
+    "level": "proof",
+    "technique": "Kani/CBMC contracts on the real validate_plan functions with LogReader::read replaced by its contract (arbitrary bytes or failure)",
+    "claim": "For every byte content of a log record and every index: ValueTable::validate_plan, IndexTable::validate_plan / skip_plan and RefCountTable::validate_plan return Ok or Err without panicking or reading outside their buffers; a value record accepted by validation is at most entry_size bytes (fits its slot) and an index / ref-count record accepted by validation names a chunk inside the file; validation and skipping consume 8 + 8*popcount(mask) bytes (bounded popcount classes).",
+    "level_note": "Trusted: LogReader::read contract (fills the buffer or fails), crc32fast constructor stub. CRC computation/comparison, record-id sequencing, clear_replay_logs, discarding later files are in LogReader::next / DbInner::enact_logs / Log::open (BufReader<File> closures, directory scans) and are not covered. enact_plan is not run (mmap / 32 KiB-buffer cost); 'apply parses as validate does' is argued from the identical code shape, not proved. Two genuine defects found by these obligations were fixed (known_findings.json).",
+    "trusted_base": TB,
+    "explanation": "Loop-free (value) or constant-bounded (mask walk, popcount classes) harnesses over fully symbolic records.",
+    "does_not_cover": ["CRC and record sequencing", "enact_plan bodies", "file discovery / discarding"],
+}
+
+PROPS["C10"] = {
+    "kani_units": ["U11"],
+    "verus_units": [],
+    "level": "other",
+    "technique": "Kani/CBMC contracts on the real packed-node decoder and on the representability check of the encoder",
+    "claim": "Reader side: unpack_node_data / unpack_node_children invert the packed-node format (data ++ LE64(child)* ++ count) for child counts 0..=3 and never panic on arbitrary input, rejecting exactly the inconsistent lengths (bounded input length). Writer side: the child count of every new node is passed through packed_child_count, proved to accept exactly 0..=255 (an unrepresentable fan-out is rejected before any slot is claimed; fix 119116d).",
+    "level_note": "The packing code itself (claim_tree_values / claim_node / claim_children_to_data: std HashMaps, lock guards, recursion) is out of reach of both back ends; reference counting of shared nodes and reclamation are not covered.",
+    "trusted_base": TB,
+    "explanation": "Decoder: one harness per concrete (child count, data length), contents symbolic: bounded. packed_child_count: complete over all usize.",
+    "does_not_cover": ["claim_tree_values / claim_node bodies", "node reference counts, reclamation", "multi-part nodes"],
 }
 
 UNIT_META = {
